@@ -456,6 +456,12 @@ def corpus(ctx):
         kind, text = make_failing(r, r.choice(valid))
         out.append({"text": text, "spl": True, "expect": kind, "origin": "failing:" + kind})
     out += dirty_programs()
+    # run-time failures that name something of the environment: data files by RELATIVE name that are missing, are a
+    # directory, or sit under a file -- the diagnostic is a function of the source, not of where the compiler is started
+    for k, nm in enumerate(["data/nosuch.bin", "nosuch.bin", "./x/../nosuch", ".", "..", "../..", "p000.rsyn/under-a-file"]):
+        out.append({"text": "import ipv4;\nimport io;\nipv4::udp::unicast(1.2.3.4:1, 1.2.3.5:2, \"before\");\n"
+                            "ipv4::udp::unicast(1.2.3.4:1, 1.2.3.5:2,\n    io::file(\"%s\"));\n" % nm,
+                    "spl": True, "expect": "any", "origin": "failing:relative-data-file"})
     for i, p in enumerate(out):
         p["name"] = "p%03d" % i
     return out
